@@ -748,6 +748,8 @@ def _is_regular_literal(cond):
         return z3.is_string_value(c.arg(1))
     if k in (z3.Z3_OP_SEQ_PREFIX, z3.Z3_OP_SEQ_SUFFIX):
         return z3.is_string_value(c.arg(0))
+    if k == z3.Z3_OP_EQ and c.arg(0).sort() == z3.StringSort():
+        return z3.is_string_value(c.arg(0)) != z3.is_string_value(c.arg(1))
     return False
 
 
@@ -756,13 +758,28 @@ def _is_membership(cond):
     return z3.is_app_of(c, z3.Z3_OP_SEQ_IN_RE)
 
 
-def flatten(e):
+def _flatten_raw(e, out):
     if z3.is_app_of(e, z3.Z3_OP_SEQ_CONCAT):
-        out = []
         for c in e.children():
-            out += flatten(c)
-        return out
-    return [e]
+            _flatten_raw(c, out)
+    elif z3.is_app_of(e, z3.Z3_OP_SEQ_UNIT) and e.sort() == z3.StringSort() and z3.is_app(e.arg(0)) \
+            and e.arg(0).decl().kind() == z3.Z3_OP_CHAR_CONST:
+        out.append(z3.StringVal(chr(e.arg(0).decl().params()[0])))     # z3's simplifier sometimes splits constants into units
+    else:
+        out.append(e)
+
+
+def flatten(e):
+    """Parts of a concatenation, with unit characters turned back into constants and adjacent constants merged."""
+    raw = []
+    _flatten_raw(e, raw)
+    out = []
+    for p in raw:
+        if out and z3.is_string_value(p) and z3.is_string_value(out[-1]):
+            out[-1] = z3.StringVal(z3str_to_py(out[-1]) + z3str_to_py(p))
+        else:
+            out.append(p)
+    return out
 
 
 def cat(parts):
@@ -1189,6 +1206,17 @@ class SymStr:
                 h, t = txt.rsplit(sep_txt, 1) if right else txt.split(sep_txt, 1)
                 cand = (parts[:i] + [z3.StringVal(h)], [z3.StringVal(t)] + parts[i + 1:])
                 break
+        if cand is None and sep_txt is not None and not getattr(self, "_noglue", False):
+            # a constant separator may only appear across parts when the symbolic "glue" between two constant
+            # parts is empty: fork on that emptiness and retry on the merged constants
+            for i in range(1, len(parts) - 1):
+                pi = parts[i]
+                if (z3.is_const(pi) and pi.decl().kind() == z3.Z3_OP_UNINTERPRETED and z3.is_string_value(parts[i - 1])
+                        and z3.is_string_value(parts[i + 1])
+                        and sep_txt in (z3str_to_py(parts[i - 1]) + z3str_to_py(parts[i + 1]))):
+                    if eng.branch(pi == z3.StringVal("")):
+                        eng.subst.append((pi, z3.StringVal("")))
+                        return self._split1(sep, right)
         if cand is not None:
             before, after = cat(cand[0]), cat(cand[1])
             if right:
@@ -1371,18 +1399,61 @@ class SymStripped(SymStr):
             b = eng.norm(self.base)
             key = ("strip", b.get_id(), self.chars, self.left, self.right)
             if key not in eng.memo:
-                l_, m_, r_ = eng.fresh_str("sl"), eng.fresh_str("sm"), eng.fresh_str("sr")
-                cons = [b == z3.Concat(l_, m_, r_)]
-                cons.append(z3.InRe(l_, z3.Star(self.cls)) if self.left else l_ == z3.StringVal(""))
-                cons.append(z3.InRe(r_, z3.Star(self.cls)) if self.right else r_ == z3.StringVal(""))
-                if self.left:
-                    cons.append(z3.InRe(m_, z3.Complement(z3.Concat(self.cls, ANYSTR))))
-                if self.right:
-                    cons.append(z3.InRe(m_, z3.Complement(z3.Concat(ANYSTR, self.cls))))
-                eng.define(*cons)
-                eng.memo[key] = m_
+                eng.memo[key] = self._materialise(eng, b)
             self._e = eng.memo[key]
         return self._e
+
+    def _materialise(self, eng, b):
+        """Structural strip: peel the parts of the concatenation from the outside; only a part that may end
+        (begin) inside the stripped class is decomposed with fresh variables."""
+        cls, star = self.cls, z3.Star(self.cls)
+        notcls = z3.Diff(ANYCHAR, cls)
+        chars = None if self.chars is None else set(self.chars)
+
+        def in_cls(ch):
+            return ch.isspace() if chars is None else ch in chars
+
+        def peel(parts, from_left):
+            parts = list(parts)
+            while parts:
+                p = parts[0] if from_left else parts[-1]
+                if z3.is_string_value(p):
+                    txt = z3str_to_py(p)
+                    while txt and in_cls(txt[0] if from_left else txt[-1]):
+                        txt = txt[1:] if from_left else txt[:-1]
+                    if txt:
+                        parts[0 if from_left else -1] = z3.StringVal(txt)
+                        return parts
+                    parts.pop(0 if from_left else -1)
+                    continue
+                if eng.branch(z3.InRe(p, star)):
+                    parts.pop(0 if from_left else -1)
+                    continue
+                edge = z3.Concat(notcls, ANYSTR) if from_left else z3.Concat(ANYSTR, notcls)
+                if eng.branch(z3.InRe(p, edge)):
+                    return parts
+                # p = (class chars)* ++ core, core beginning (ending) outside the class
+                k = ("peel", p.get_id(), self.chars, from_left)
+                if k not in eng.memo:
+                    w, core = eng.fresh_str("sw"), eng.fresh_str("sc")
+                    eng.memo[k] = core
+                    if from_left:
+                        eng.define(p == z3.Concat(w, core), z3.InRe(w, z3.Plus(cls)), z3.InRe(core, edge))
+                        rep = z3.Concat(w, core)
+                    else:
+                        eng.define(p == z3.Concat(core, w), z3.InRe(w, z3.Plus(cls)), z3.InRe(core, edge))
+                        rep = z3.Concat(core, w)
+                    if z3.is_const(p) and p.decl().kind() == z3.Z3_OP_UNINTERPRETED:
+                        eng.subst.append((p, rep))
+                parts[0 if from_left else -1] = eng.memo[k]
+                return parts
+            return parts
+        parts = flatten(b)
+        if self.left:
+            parts = peel(parts, True)
+        if self.right:
+            parts = peel(parts, False)
+        return cat(parts)
 
     def __bool__(self):
         if self._e is None:
